@@ -239,16 +239,38 @@ func ingestNoti(v notiVec, glue bool) []step {
 		}
 	}
 	var steps []step
+	dead := false
 	do := func(name string, f func() error) {
+		if dead {
+			return // a panic may have left locks of the cache held: this cache is not touched again
+		}
 		before := cacheDump(c)
 		o, site := guarded(f)
-		steps = append(steps, step{"name": name, "outcome": o, "site": site, "before": before, "after": cacheDump(c),
+		after := before
+		if o == "panic" {
+			dead = true
+		} else {
+			after = cacheDump(c)
+		}
+		steps = append(steps, step{"name": name, "outcome": o, "site": site, "before": before, "after": after,
 			"single": v.Atomic || v.Nup+v.Ndel <= 1})
 	}
 	do("GnmiUpdate", func() error { return c.GnmiUpdate(n) })
 	// follow-ups that would surface a latent crash planted by the message
 	do("UpdateMetadata", func() error { c.UpdateMetadata(); return nil })
 	do("UpdateSize", func() error { c.UpdateSize(); return nil })
+	do("QueryAll", func() error {
+		return c.Query("dev1", []string{"*"}, func(_ []string, l *ctree.Leaf, _ interface{}) error { _ = l; return nil })
+	})
+	// whatever the message stored is deleted again by a later wildcard delete (the delete notifications of the
+	// change feed are built from the stored messages, whatever their shape), in the message's own prefix encoding
+	do("DeleteAll", func() error {
+		dp := &pb.Path{Target: "dev1"}
+		if glue {
+			dp.Origin = "openconfig"
+		}
+		return c.GnmiUpdate(&pb.Notification{Timestamp: base + 100, Prefix: dp, Delete: []*pb.Path{{Elem: pathElems("*")}}})
+	})
 	do("Reset", func() error { c.Reset("dev1"); return nil })
 	return steps
 }
